@@ -69,6 +69,7 @@ Definition instr (i : rz) (rest : list rz) (s : rs) : option rs :=
                         (rsnap s) (faults s) (spawned s + k) (left s) (bad s) (raised s) (clean0 s))
   | ZWaitAllAlive => if negb (broken s) && negb (Nat.eqb (ex s + de s) 0) then None else Some (set_pc s (Some rest))
   | ZLocked _ => None          (* never present after flattening *)
+  | ZWakeManager => Some (set_pc s (Some rest))    (* dropped by flattening *)
   end.
 
 (* total: an event that is not enabled leaves the state as it is *)
